@@ -7,12 +7,16 @@ statement is parsed back line by line and compared with the CID structure; Integ
 must have the capacity for both limits under the dialect's semantics.
 """
 import itertools
+import json
+import os
 import re
 
 from mc import engine, harness
 from mc.core import Part
 
 MOD = "mc.props.c19"
+with open(os.path.join(os.path.dirname(os.path.dirname(os.path.abspath(__file__))), "models", "sql_keywords.json")) as _keyword_file:
+    KEYWORDS = {name: frozenset(words) for name, words in json.load(_keyword_file).items()}
 BOUNDARY = sorted({s * v for s in (1, -1) for p in (7, 8, 15, 16, 31, 32, 63) for v in (2**p - 1, 2**p, 2**p + 1)} | {0, 1, -1, 5, -5, 100, -100})
 CAPACITY = {"tinyint": (0, 255), "smallint": (-(2**15), 2**15 - 1), "int": (-(2**31), 2**31 - 1), "integer": (-(2**31), 2**31 - 1), "bigint": (-(2**63), 2**63 - 1)}
 NAMES = ["id", "name", "Select", "table", "date", "a_1", "User", "level", "NUMBER", "zone"]  # keywords are recognised whatever their case
@@ -57,6 +61,19 @@ def judge(case, part):
     except Exception as error:
         part.fail(tag % ("statement-not-generated:" + type(error).__name__), case, "create table statement", repr(error))
         return
+    # one factory asked again, and after its columns have been iterated: the same statement every time
+    try:
+        factory = sql.SqlFactory(cid, "some_table", dialect)
+        first = factory.create_table_statement()
+        columns_seen = len(list(factory.sql_fields()))
+        again = factory.create_table_statement()
+        part.transitions += 2
+        if not (first == again == statement) or columns_seen != len(case["fields"]):
+            part.fail(tag % "statement-changes-when-the-factory-is-used-again", case, statement, {"first": first, "again": again, "sql_fields": columns_seen})
+            return
+    except Exception as error:
+        part.fail(tag % ("factory-used-again:" + type(error).__name__), case, "the same statement", repr(error))
+        return
     lines = statement.splitlines()
     part.state((case["dialect"], tuple(re.sub(r"\d+", "N", line) for line in lines[1:-1])))
     if not lines or not lines[0].startswith("create table some_table (") or lines[-1].strip() != ");":
@@ -74,7 +91,9 @@ def judge(case, part):
             part.fail(tag % "column-not-parsable", case, "name type[(p[, s])] [not null]", column)
             continue
         name = match.group("name")
-        keyword = field["name"].lower() in dialect.keywords
+        # reference copy of the dialects' reserved words (mc/models/sql_keywords.json, taken from the pinned tree): the list the
+        # tree under test carries may itself be damaged
+        keyword = field["name"].lower() in KEYWORDS[case["dialect"]]
         expected_name = '"%s"' % field["name"] if keyword else field["name"]
         if name != expected_name:
             part.fail(tag % ("keyword-quoting:%s" % ("missing" if keyword else "unexpected")), case, expected_name, column)
@@ -166,6 +185,17 @@ def all_cases(tier="quick"):
                     if len(chosen) == count:
                         break
                 cases.append({"dialect": dialect, "fields": chosen})
+        # every reserved word of the dialect (and of the other dialects) as a field name, 12 per CID, in lower, upper and title case
+        import keyword as python_keywords
+
+        words = sorted(w for w in set().union(*KEYWORDS.values()) if w.isidentifier() and w.isascii() and not python_keywords.iskeyword(w) and not python_keywords.iskeyword(w.lower()))
+        for style_index, style in enumerate((str.lower, str.upper, str.title)):
+            styled = [style(w) for w in words if not python_keywords.iskeyword(style(w))]
+            for start in range(0, len(styled), 12):
+                if style_index and (start // 12) % 4 != style_index:
+                    continue  # upper and title case: a quarter of the words each
+                chunk = styled[start:start + 12]
+                cases.append({"dialect": dialect, "fields": [text_field(name, "...9", 9, index % 2 == 0) for index, name in enumerate(chunk)]})
         if thorough:
             # every ordered pair of declarations with different names, and every ordered triple over half of the catalogue:
             # whatever one column leaves behind for the next one shows up in some order
